@@ -485,6 +485,131 @@ def gen_common_optional():
 
 
 # ---------------------------------------------------------------------------------------------
+# long lists: EVERY length 0..N with position-distinct element types vfc::e<i> (= std::integral_constant<int, i>),
+# plus variants with one repeated element (first/last, first/middle, middle/last), on mpl::vector and on the
+# foreign list template vfc::tl.  Reaches what the 4-letter alphabet cannot: implementations that treat a list
+# differently from some length on (unrolled "k elements per step" specialisations, 8/16/32/64/128 +- 1).
+# The oracle is the same python sequence model as above.
+# ---------------------------------------------------------------------------------------------
+
+def E(i):
+    return 'vfc::e<%d>' % i
+
+
+def eidx(t):
+    return int(t[len('vfc::e<'):-1])
+
+
+def long_variants(n):
+    """(variant name, list) for length n"""
+    d = [E(i) for i in range(n)]
+    yield 'distinct', d
+    mid = n // 2
+    if n >= 2:
+        v = list(d)
+        v[n - 1] = d[0]
+        yield 'dup-first-last', v
+    if n >= 3:
+        v = list(d)
+        v[mid] = d[0]
+        yield 'dup-first-mid', v
+        v = list(d)
+        v[n - 1] = d[mid]
+        yield 'dup-mid-last', v
+
+
+def longclass(n):
+    return 'long<9' if n < 9 else 'long9+'
+
+
+def gen_long_list_ops(l, variant, tmpl=V):
+    n = len(l)
+    L = lst(l, tmpl)
+    pre = ('' if tmpl == V else 'tl,') + longclass(n)
+    hdr = 'mpl'
+    m = 'xtl::mpl::'
+    mid = n // 2
+    nt = n >= 2
+
+    yield Case(hdr, 'mpl::size', pre, 'value', m + 'size<%s>::value' % L, ['%du' % n], nt)
+    yield Case(hdr, 'mpl::empty', pre, 'value', m + 'empty<%s>::value' % L, ['true' if n == 0 else 'false'], nt)
+    if n >= 1:
+        yield Case(hdr, 'mpl::front', pre, 'type', m + 'front_t<%s>' % L, [l[0]], nt)
+        yield Case(hdr, 'mpl::back', pre, 'type', m + 'back_t<%s>' % L, [l[-1]], nt and l[-1] != l[0])
+        yield Case(hdr, 'mpl::pop_front', pre, 'type', m + 'pop_front_t<%s>' % L, [lst(l[1:], tmpl)], nt)
+    for p in ([], [E(-2)], [E(-2), E(-3)]):
+        args = ''.join(', ' + t for t in p)
+        pc = ',pack%d' % len(p)
+        yield Case(hdr, 'mpl::push_front', pre + pc, 'type', m + 'push_front_t<%s%s>' % (L, args), [lst(p + l, tmpl)], n >= 1 and bool(p))
+        yield Case(hdr, 'mpl::push_back', pre + pc, 'type', m + 'push_back_t<%s%s>' % (L, args), [lst(l + p, tmpl)], n >= 1 and bool(p))
+        if p:
+            # the multi-step form: an algorithm applied to the result of another one
+            yield Case(hdr, 'mpl::back', pre + ',of-push_back', 'type', m + 'back_t<%spush_back_t<%s%s>>' % (m, L, args), [p[-1]], n >= 1)
+            yield Case(hdr, 'mpl::front', pre + ',of-push_front', 'type', m + 'front_t<%spush_front_t<%s%s>>' % (m, L, args), [p[0]], n >= 1)
+    queries = [E(-1)]
+    for i in ([0, mid, n - 1] if n else []):
+        if l[i] not in queries:
+            queries.append(l[i])
+    for v in queries:
+        c = l.count(v)
+        yield Case(hdr, 'mpl::count', pre + ',' + ('absent' if c == 0 else 'once' if c == 1 else 'repeated'), 'value',
+                   m + 'count<%s, %s>::value' % (L, v), ['%du' % c], nt and c >= 1)
+        yield Case(hdr, 'mpl::contains', pre + ',' + ('present' if c else 'absent'), 'value',
+                   m + 'contains<%s, %s>::value' % (L, v), ['true' if c else 'false'], nt and c >= 1)
+        i = ref_index_of(l, v)
+        yield Case(hdr, 'mpl::index_of', pre + ',' + ('absent' if i is None else 'first' if i == 0 else 'later'), 'value',
+                   m + 'index_of<%s, %s>::value' % (L, v), ['SIZE_MAX' if i is None else '%du' % i], nt and i not in (None, 0))
+    preds = [('vfc::always_true', lambda t: True), ('vfc::always_false', lambda t: False),
+             ('vfc::is_even', lambda t: eidx(t) % 2 == 0),
+             ('vfc::ge<%d>::apply' % (n - 1), lambda t: eidx(t) >= n - 1),
+             ('vfc::ge<%d>::apply' % mid, lambda t: eidx(t) >= mid)]
+    for pname, pf in preds:
+        c = sum(1 for t in l if pf(t))
+        yield Case(hdr, 'mpl::count_if', pre + ',' + ('none' if c == 0 else 'all' if c == n else 'some'), 'value',
+                   m + 'count_if<%s, %s>::value' % (L, pname), ['%du' % c], nt and c > 0)
+        i = ref_find_if(l, pf)
+        yield Case(hdr, 'mpl::find_if', pre + ',' + ('none' if i == n else 'first' if i == 0 else 'later'), 'value',
+                   m + 'find_if<%s, %s>::value' % (pname, L), ['%du' % i], nt and i > 0)
+    yield Case(hdr, 'mpl::transform', pre + ',add_pointer', 'type', m + 'transform_t<std::add_pointer_t, %s>' % L,
+               [lst([t + '*' for t in l], tmpl)], nt)
+    yield Case(hdr, 'mpl::transform', pre + ',box', 'type', m + 'transform_t<vfc::box, %s>' % L,
+               [lst(['vfc::box<%s>' % t for t in l], tmpl)], nt)
+    if tmpl == V:
+        yield Case(hdr, 'mpl::cast', pre + ',to-tl', 'type', m + 'cast_t<%s, vfc::tl>' % L, [lst(l, TL)], nt)
+        yield Case(hdr, 'mpl::cast', pre + ',to-tuple', 'type', m + 'cast_t<%s, std::tuple>' % L, [lst(l, 'std::tuple')], nt)
+    else:
+        yield Case(hdr, 'mpl::cast', pre + ',to-vector', 'type', m + 'cast_t<%s, xtl::mpl::vector>' % L, [lst(l, V)], nt)
+    for k in range(0, n + 1):
+        kc = pre + ',' + ('N=0' if k == 0 else 'N=len' if k == n else '0<N<len')
+        sp = m + 'split<%d, %s>' % (k, L)
+        if tmpl == V:
+            yield Case(hdr, 'mpl::split::first_type', kc, 'type', 'typename %s::first_type' % sp, [lst(l[:k])], 0 < k < n)
+            yield Case(hdr, 'mpl::split::second_type', kc, 'type', 'typename %s::second_type' % sp, [lst(l[k:])], 0 < k < n)
+        # foreign list template: only the law the statement names (first_type is always an mpl::vector there)
+        yield Case(hdr, 'mpl::split::concat', kc, 'type',
+                   'vfc::concat_t<typename %s::first_type, typename %s::second_type>' % (sp, sp), [L], 0 < k < n)
+    u = ref_unique(l)
+    yield Case(hdr, 'mpl::unique', pre + ',' + ('nodup' if len(u) == n else 'dup'), 'type', m + 'unique_t<%s>' % L, [lst(u, tmpl)], len(u) != n)
+    # merge_set: L1 = the distinct list of this length (a set), L2 = this list / a half-overlapping / a disjoint one
+    if variant == 'distinct':
+        others = [('same', l), ('half-overlap', [E(i) for i in range(mid, mid + n)]), ('disjoint', [E(i) for i in range(n, 2 * n)])]
+    else:
+        others = [('L2dup', None)]
+    for oname, o in others:
+        a, b = (l, o) if o is not None else ([E(i) for i in range(n)], l)
+        yield Case(hdr, 'mpl::merge_set', pre + ',L1set,' + oname, 'type', m + 'merge_set_t<%s, %s>' % (lst(a, tmpl), lst(b, tmpl)),
+                   [lst(ref_unique(a + b), tmpl)], nt and oname != 'same')
+
+
+def stage_long(lo, hi):
+    for n in range(lo, hi + 1):
+        for tmpl in (V, TL):
+            for vname, l in long_variants(n):
+                for c in gen_long_list_ops(l, vname, tmpl):
+                    yield c
+
+
+# ---------------------------------------------------------------------------------------------
 # stages: what each tier enumerates
 # ---------------------------------------------------------------------------------------------
 
